@@ -901,6 +901,112 @@ func TestVerifC02(t *testing.T) {
 	for c := 0; c < n3 && vDeadCount < 40; c++ {
 		vForced(out, rng, c)
 	}
+	// (4) the cond API's Broadcast (called by no production code; exercised directly on the queue's hasMoreSpace)
+	n4 := vBudget(80, 10)
+	for c := 0; c < n4 && vDeadCount < 40; c++ {
+		vBcast(out, rng, c)
+	}
+}
+
+// ---- cond.Broadcast -----------------------------------------------------------------------------------
+// opBroadcast calls hasMoreSpace.Broadcast() under the queue's mutex at a stable point (every counted waiter is
+// inside the select, so the loop cannot block for ever) and records: LBroadcast, the token taken by every waiter
+// that was counted, then their re-checks (admitted ones first, in queue order — see wakeLabels for why that order
+// is always one the model accepts).
+func (e *vEng) opBroadcast() {
+	if e.dead {
+		return
+	}
+	n0, enq0 := e.selCounts(), e.enqSet()
+	nW := len(e.waiters())
+	fin := make(chan struct{})
+	go func() { e.mu.Lock(); e.cnd.Broadcast(); e.mu.Unlock(); close(fin) }()
+	select {
+	case <-fin:
+	case <-time.After(3 * time.Second):
+		e.lab(13, 0, 0, -1)
+		e.dead = true
+		vDeadCount++
+		e.oracle("broadcast-does-not-return", fmt.Sprintf("kind=%s waiters=%d", e.kindName(), nW))
+		return
+	}
+	if !e.settle(2 * time.Second) {
+		e.lab(13, 0, 0, -1)
+		e.unstable("broadcast")
+		return
+	}
+	e.lab(13, 0, 0, -1)
+	newEnq := e.newlyEnq(enq0)
+	seen := map[int]bool{}
+	var woken, rew []*vProd
+	for _, p := range newEnq {
+		seen[p.id] = true
+		woken = append(woken, p)
+	}
+	for _, p := range e.waiters() {
+		if a, ok := n0[p.id]; ok && p.ctx.n.Load() > a && !seen[p.id] {
+			woken = append(woken, p)
+			rew = append(rew, p)
+		}
+	}
+	for _, p := range woken {
+		e.lab(1, int64(p.id), 0, 0)
+	}
+	for _, p := range newEnq {
+		e.objBefore(p.id)
+		e.lab(3, int64(p.id), 0, 0)
+		e.objAfter(p.id)
+	}
+	for _, p := range rew {
+		e.lab(3, int64(p.id), 0, 4)
+		e.out.Stat("rewait", 1)
+	}
+	e.out.Stat(fmt.Sprintf("broadcast_waiters_%d", nW), 1)
+	if len(woken) != nW {
+		e.oracle("broadcast-did-not-wake-all", fmt.Sprintf("kind=%s counted=%d woken=%d", e.kindName(), nW, len(woken)))
+	}
+	e.observe()
+	e.stableOracle()
+}
+
+func vBcast(out *vOut, rng *vRand, c int) {
+	kind := rng.Intn(2)
+	capacity := int64(2 + rng.Intn(5))
+	e := vNewEng(out, kind, capacity, true, false, false)
+	e.nontriv = true
+	next := 0
+	for i := 0; i < int(capacity); i++ {
+		e.opOffer(e.newProd(next, 1))
+		next++
+	}
+	r := 1 + rng.Intn(int(capacity)-1) // keep one queued: the persistent queue resets its size when it runs empty
+	for i := 0; i < r; i++ {
+		e.opRead()
+	}
+	w := rng.Intn(4)
+	for i := 0; i < w; i++ {
+		e.opOffer(e.newProd(next, 1+int64(rng.Intn(int(capacity)))))
+		next++
+	}
+	for rounds := 1 + rng.Intn(2); rounds > 0 && !e.dead; rounds-- {
+		for d := rng.Intn(r + 1); d > 0; d-- {
+			if infl := e.inflightIDs(); len(infl) > 0 {
+				e.opDone(infl[rng.Intn(len(infl))], 0)
+			}
+		}
+		e.opBroadcast()
+	}
+	for guard := 0; guard < 60 && !e.dead; guard++ {
+		if len(e.accepted) > len(e.handed) {
+			e.opRead()
+		} else if infl := e.inflightIDs(); len(infl) > 0 {
+			e.opDone(infl[0], 0)
+		} else {
+			break
+		}
+	}
+	e.finish()
+	e.emit()
 }
 
 // number of goroutines blocked in mu.Lock(): sync.Mutex{state int32; sema uint32}, waiters = state >> 3
